@@ -6,9 +6,10 @@ Import ListNotations.
 Open Scope R_scope.
 
 (* ---- loading: all 27 x 27 pairs x 19 material representations *)
-Lemma c_loading_factor_all M rml rmg temp v (mat : mrep) (r1 r2 : lrep) :
+Lemma c_loading_factor_gen M rml rmg temp v op (mat : mrep) (r1 r2 : lrep) :
   0 < M -> 0 < rml -> 0 < rmg ->
-  c_loading RNum v (l_basis r1) (l_basis r2) (l_unit r1) (l_unit r2) (ads_l M rml rmg) temp (m_basis mat) (m_unit mat)
+  c_loading RNum v (l_basis r1) (l_basis r2) (l_unit r1) (l_unit r2)
+    (mkAds RNum op (Some M) (Some (rml * M)) (Some (rmg * M)) (Some rml) (Some rmg)) temp (m_basis mat) (m_unit mat)
   = Ok (spec_conv (l_canon M rml rmg mat r1) (l_canon M rml rmg mat r2) v).
 Proof.
   intros HM Hl Hg.
@@ -18,6 +19,11 @@ Proof.
   - rewrite (l_canon_phys_eq _ _ _ _ _ E2). now apply c_loading_factor_frac_from.
   - now apply c_loading_factor_frac_frac.
 Qed.
+Lemma c_loading_factor_all M rml rmg temp v (mat : mrep) (r1 r2 : lrep) :
+  0 < M -> 0 < rml -> 0 < rmg ->
+  c_loading RNum v (l_basis r1) (l_basis r2) (l_unit r1) (l_unit r2) (ads_l M rml rmg) temp (m_basis mat) (m_unit mat)
+  = Ok (spec_conv (l_canon M rml rmg mat r1) (l_canon M rml rmg mat r2) v).
+Proof. intros; unfold ads_l; now apply c_loading_factor_gen. Qed.
 
 Lemma p_canon_pos psat r : 0 < psat -> 0 < p_canon psat r.
 Proof. intros; destruct r as [u| |]; simpl; [apply pa_per_pos|lra|lra]. Qed.
